@@ -38,6 +38,11 @@ def isSimpleEscape (c : UInt8) (quote : UInt8) : Bool :=
 
 def badCodePoint (r : Nat) : Bool := (0xD800 ≤ r && r < 0xE000) || r > 0x10FFFF
 
+/-- the same test on a Go `rune` (int32) accumulated from eight hexadecimal digits: a value of
+2^31 or more has wrapped to a negative rune, which the test lets through (`lexInterpretedString`
+declares `var r rune`; `lexRuneLiteral` uses `uint32` and has no such wrap) -/
+def badCodePointRune (r : Nat) : Bool := r < 0x80000000 && badCodePoint r
+
 /-! ## identifiers -/
 
 /-- the loop of `lexIdentifierOrKeyword`: returns `(p, cols)` -/
@@ -262,7 +267,7 @@ def strEscU (E : Env) (st : St) (p cols : Nat) (e : UInt8) : Except Fault StrOut
     match ← hexRun E st n (p + 2) 0 with
     | none => pure (.err .hexEscapeChar (some (p, cols)))
     | some r =>
-      if badCodePoint r then pure (.err .invalidCodePoint (some (p, cols)))
+      if badCodePointRune r then pure (.err .invalidCodePoint (some (p, cols)))
       else pure (.cont (p + 2 + n) (cols + 2 + n))
 
 /-- `case 'x'`: `for i := range 2 { if p+2+i == len … ; if !isHexDigit(l.src[p+2+i]) … }` -/
